@@ -35,6 +35,8 @@ class Analyzer(Interp):
         self.calls = []
         self.watch_index = None        # predicate(buffer id): log every index into such a buffer with the state at that point
         self.index_log = []
+        self.watch_access = None       # predicate(buffer id): log (offset, count) of every access to such a buffer
+        self.access_log = []
         self.return_hook = None        # callable(analyzer, fn, return node, state, frame) before a return expression is evaluated
         self._gbusy = set()
 
@@ -133,7 +135,14 @@ class Analyzer(Interp):
                     return out
         return super().ev(fn, n, st, fr)
 
+    def access(self, fn, node, st, buf, off, count, what):
+        if self.recording and self.watch_access is not None and self.watch_access(buf):
+            self.access_log.append({'fn': fn, 'node': node, 'buf': buf, 'off': as_lin(off), 'count': as_lin(count), 'what': what, 'stack': list(self.call_stack)})
+        return super().access(fn, node, st, buf, off, count, what)
+
     def index(self, fn, n, st, base, idx, t, what='index'):
+        if self.recording and self.watch_access is not None and isinstance(base, Span) and self.watch_access(base.buf) and isinstance(idx, Lin):
+            self.access_log.append({'fn': fn, 'node': n, 'buf': base.buf, 'off': as_lin(base.off) + idx, 'count': Lin.const(1), 'what': what, 'stack': list(self.call_stack)})
         if self.recording and self.watch_index is not None:
             buf = getattr(base, 'buf', None)
             if buf is not None and self.watch_index(buf):
